@@ -112,7 +112,7 @@ def _fill(t: str, r: Rng) -> str:
             .replace("{e}", r.choice(["a\\\\b", "tab\\tx", "nl\\n", "q\\\"q", "\\\\"])))
 
 
-def _gen_program(r: Rng, good: bool) -> Dict[str, Any]:
+def _gen_program(r: Rng, good: bool, small_ok: bool = True) -> Dict[str, Any]:
     """A program as a list of statement dicts: {label?, text (with {L} unresolved), kind}."""
     n = r.choice([3, 8, 16, 40])
     labels = [f"L{i}" for i in range(r.range(1, 5))]
@@ -171,7 +171,7 @@ def _gen_program(r: Rng, good: bool) -> Dict[str, Any]:
             stmts[i]["label"] = lb
         else:
             stmts.append({"text": "NOP", "kind": "ins", "label": lb})
-    if stmts and stmts[0]["kind"] in ("ins", "data") and r.chance(1, 3):
+    if small_ok and stmts and stmts[0]["kind"] in ("ins", "data") and r.chance(1, 3):
         early = [i for i in range(min(3, len(stmts))) if stmts[i]["kind"] in ("ins", "data") and "label" not in stmts[i]
                  and all(st["kind"] in ("ins", "data") for st in stmts[:i + 1])]
         if early:
@@ -237,13 +237,25 @@ def _source(prog: Dict[str, Any]) -> str:
 
 
 def generate(batch: str, r: Rng, idx: int, tier: str) -> Dict[str, Any]:
+    rb = r.child("bases")
+    bases = None
+    if rb.chance(1, 5):
+        # a configured section layout (an instance override of the base-address table): both passes, and labels as
+        # well as bytes, must follow it
+        bases = {"code": rb.choice([0x00000, 0x00400, 0x21000]), "text": 0, "data": rb.choice([0x80000, 0x70000, 0x81000]),
+                 "bss": rb.choice([0x90000, 0xA0000])}
+        bases["text"] = bases["code"]
+    small_ok = bases is None or bases["code"] == 0      # small-valued labels rely on the default origin 0
     calls = []
     for i in range(r.range(2, 8)):
         good = r.chance(3, 5) or i == 0
-        prog = _gen_program(r.child("prog", i), good)
+        prog = _gen_program(r.child("prog", i), good, small_ok)
         calls.append({"obj": r.below(2), "prog": prog, "src": _source(prog)})
-    calls.append({"obj": r.below(2), "prog": (p := _gen_program(r.child("last"), True)), "src": _source(p)})
-    return {"kind": "asm", "exec": "py-asm", "calls": calls}
+    calls.append({"obj": r.below(2), "prog": (p := _gen_program(r.child("last"), True, small_ok)), "src": _source(p)})
+    scn = {"kind": "asm", "exec": "py-asm", "calls": calls}
+    if bases:
+        scn["bases"] = bases
+    return scn
 
 
 # ----------------------------------------------------------------------------------------
@@ -263,25 +275,33 @@ def _assemble(asm, src: str) -> Dict[str, Any]:
 
 def execute(scn: Dict[str, Any]) -> Dict[str, Any]:
     from sc62015.pysc62015.sc_asm import Assembler
-    objs = [Assembler(), Assembler()]
+    bases = scn.get("bases")
+
+    def new_asm():
+        a = Assembler()
+        if bases:
+            a.SECTION_BASE_ADDRESSES = dict(bases)
+        return a
+
+    objs = [new_asm(), new_asm()]
     out = []
     for call in scn["calls"]:
         res = _assemble(objs[call["obj"]], call["src"])
         rec: Dict[str, Any] = {"res": res}
         if res["ok"]:
             rec["again"] = _assemble(objs[call["obj"]], call["src"])
-            rec["fresh"] = _assemble(Assembler(), call["src"])
-            rec["ref"] = ref().assemble(call["src"])
-            rec["model"] = _model(call["prog"], res.get("symbols") or {})
+            rec["fresh"] = _assemble(new_asm(), call["src"])
+            rec["ref"] = ref().assemble(call["src"], bases)
+            rec["model"] = _model(call["prog"], res.get("symbols") or {}, bases)
         out.append(rec)
     return {"calls": out}
 
 
-def _model(prog: Dict[str, Any], symbols: Dict[str, int]) -> Dict[str, Any]:
+def _model(prog: Dict[str, Any], symbols: Dict[str, int], bases: Optional[Dict[str, int]] = None) -> Dict[str, Any]:
     """Compositional layout: walk the statements with per-section pointers; each statement assembled alone at its
     address with symbols replaced by their values must give its bytes."""
     from sc62015.pysc62015.sc_asm import Assembler
-    base = {"code": 0x00000, "text": 0x00000, "data": 0x80000, "bss": 0x90000}
+    base = dict(bases) if bases else {"code": 0x00000, "text": 0x00000, "data": 0x80000, "bss": 0x90000}
     # pass A: sizes (from standalone assembly with symbols replaced by a same-width dummy), label addresses
     ptr = dict(base)
     cur = "code"
@@ -444,7 +464,7 @@ def check(scn: Dict[str, Any], hist: Dict[str, Any]) -> List[Dict[str, Any]]:
                 probe("aborted_pass2")
             if prog["good"]:
                 # a program meant to be good was rejected: only acceptable for a cross-page near transfer
-                m = _model(prog, {})
+                m = _model(prog, {}, scn.get("bases"))
                 if m.get("cross_page"):
                     probe("cross_page_rejected")
                 elif "error" not in m:
